@@ -24,7 +24,7 @@ INVARIANT StackBound
   return {"Gen_Island.tla": mod, "Gen_Island.cfg": cfg}
 
 
-def scene(ntree, edges, variant):
+def scene(ntree, edges, variant, hyper=()):
   """trees = bodies with one hinge (variant 0) or a free joint (variant 1); {i,i}: friction loss on tree i (hinge) / contact with the floor
   (free); {i,j}: connect equality between the bodies."""
   bodies, eq = [], []
@@ -36,12 +36,24 @@ def scene(ntree, edges, variant):
                     f'contype="0" conaffinity="0"/></body>')
     else:
       z = 0.09 if t in selfs else 0.6
-      bodies.append(f'<body name="t{t}" pos="{0.5 * t} 0 {z}"><freejoint/><geom type="sphere" size="0.1"/></body>')
+      bodies.append(f'<body name="t{t}" pos="{0.5 * t} {0.3 * (t % 2)} {z}"><freejoint/><geom type="sphere" size="0.1"/></body>')  # zigzag: a tendon through three trees is not straight
   for a, b in edges:
     if a != b:
       eq.append(f'<connect body1="t{a}" body2="t{b}" anchor="0.1 0 0"/>')
   floor = '<geom type="plane" size="5 5 .1"/>' if variant == 1 else ""
-  return f'<mujoco><worldbody>{floor}{"".join(bodies)}</worldbody><equality>{"".join(eq)}</equality></mujoco>'
+  # a row over three trees: a limited tendon whose limit is active (fixed tendon over the three hinges / spatial tendon through sites on the three bodies)
+  ten = []
+  for n, (a, b, c) in enumerate(hyper):
+    if variant == 0:
+      ten.append(f'<fixed name="h{n}" limited="true" range="0.2 0.6"><joint joint="j{a}" coef="1"/><joint joint="j{b}" coef="-1.3"/><joint joint="j{c}" coef="0.7"/></fixed>')
+    else:
+      ten.append(f'<spatial name="h{n}" limited="true" range="0 0.3"><site site="s{a}"/><site site="s{b}"/><site site="s{c}"/></spatial>')
+  xml = f'<mujoco><worldbody>{floor}{"".join(bodies)}</worldbody><equality>{"".join(eq)}</equality><tendon>{"".join(ten)}</tendon></mujoco>'
+  if variant == 1:
+    xml = xml.replace('<freejoint/>', '<freejoint/><site name="S" pos="0 0 0.05" size="0.01"/>')
+    for t in range(ntree):
+      xml = xml.replace('<site name="S"', f'<site name="s{t}"', 1)
+  return xml
 
 
 def _chunk(args):
@@ -55,18 +67,19 @@ def _chunk(args):
   out = []
   for cfg in cfgs:
     edges = [tuple(e) for e in cfg["edges"]]
+    hyper = [tuple(e) for e in cfg.get("hyper", [])]
     for variant in (0, 1):
-      xml = scene(ntree, edges, variant)
+      xml = scene(ntree, edges, variant, hyper)
       mjm = mujoco.MjModel.from_xml_string(xml)
       mjd = mujoco.MjData(mjm)
       mujoco.mj_forward(mjm, mjd)
       m = mjw.put_model(mjm)
       nworld = 2
-      d = mjw.make_data(mjm, nworld=nworld)
+      d = mjw.make_data(mjm, nworld=nworld, njmax=int(mjd.nefc) + 16)  # capacity is not the subject here (C16): room for every row
       mjw.fwd_position(m, d)
       mjw.island(m, d)
       I.compute_island_mapping(m, d)
-      where = {"ntree": ntree, "edges": edges, "variant": variant}
+      where = {"ntree": ntree, "edges": edges, "hyper": hyper, "variant": variant}
       lab = cfg["labels"]
       exp = np.array([lab[str(t)] for t in range(ntree)] if isinstance(lab, dict) else list(lab))
       for w in range(nworld):
